@@ -6,7 +6,8 @@ from props import common
 RULE = ("every string over the alphabet {'/', '.', 'a', U+00E9} up to the length bound, joined onto each of "
         "the bases {root, /a, /a/b.c, /é/.x, /abc/d, /ab/cde/f, /é日/x} (component lengths rising and falling, multi-byte), observed through as_str, parent, filename, extension, is_root; "
         "plus random longer arguments and chains; every observation also through AsyncVfsPath (its join is a separate function); a case is non-trivial if the argument has >= 2 characters and "
-        "distinct by (base, argument)")
+        "distinct by (base, argument); equality (==) between every pair of spellings of paths on every pair of seven instances "
+        "(two MemoryFS, two altroots, three instances of a stateless zero-sized user filesystem), sync and async")
 ASSUMPTIONS = ["join arguments are valid UTF-8 (the API takes &str)"]
 ALPHA = ["/", ".", "a", "é"]
 BASES = ["", "a", "a/b.c", "é/.x", "abc/d", "ab/cde/f", "é日/x"]
@@ -47,7 +48,32 @@ def corpus():
     for arg in ["ä/" * 100, "ä/" * 130 + "x", "/" + "日" * 90 + "/", "x" * 300, ("ab/" * 100) + ".."]:
         for b in ["", "a/b.c"]:
             add_ops(c2, b, arg)
-    return [c, c2]
+    return [c, c2] + eq_cases()
+
+
+def eq_cases():
+    """equality: the same canonical string reached by different joins, different strings, and the same strings on other
+    instances - two MemoryFS, two altroots over one of them, and three instances of a STATELESS user filesystem (a
+    zero-sized type: nothing distinguishes two of them but their identity)"""
+    c = vfx.Case("c06eq")
+    for _ in range(5):
+        c.base("mem")
+    m0 = c.fs("base", 0)
+    m1 = c.fs("base", 1)
+    a0 = c.fs("alt", m0, vfx.hexs("/a"))
+    a1 = c.fs("alt", m0, vfx.hexs("/a"))
+    u0 = c.fs("unit", 2)
+    u1 = c.fs("unit", 3)
+    u2 = c.fs("unit", 4)
+    insts = [m0, m1, a0, a1, u0, u1, u2]
+    spellings = [[], ["a"], ["a/b"], ["a", "b"], ["a/./b"], ["a/x/../b"], ["a/b", "PARENT"], ["a/b/c", "PARENT"], ["/a"], ["b"],
+                 ["a", "PARENT"], [".."], ["é"], ["é", "PARENT", "é"]]
+    for i in insts:
+        for j in insts:
+            for s1 in spellings:
+                for s2 in (spellings if i == j else spellings[:4] + [["a", "PARENT"]]):
+                    c.op("eq", vfx.ps(i, *s1) if s1 else "%d:" % i, vfx.ps(j, *s2) if s2 else "%d:" % j)
+    return [c]
 
 
 def add_ops(c, base, arg):
